@@ -2,10 +2,34 @@ package index
 
 import (
 	"encoding/binary"
+	"errors"
 	"io"
 )
 
+// The snapshot format stores the number of entries and the length of a value in 16 bits
+// and the length of a key in 8 bits.
+const (
+	maxMetadataEntries     int = 1<<16 - 1
+	maxMetadataKeyLength   int = 1<<8 - 1
+	maxMetadataValueLength int = 1<<16 - 1
+)
+
+var MetadataTooLargeError error = errors.New("Metadata too large")
+
 type Metadata map[string]string
+
+// Validate refuses metadata that save could only write with truncated length fields.
+func (this Metadata) Validate() error {
+	if len(this) > maxMetadataEntries {
+		return MetadataTooLargeError
+	}
+	for k, v := range this {
+		if len(k) > maxMetadataKeyLength || len(v) > maxMetadataValueLength {
+			return MetadataTooLargeError
+		}
+	}
+	return nil
+}
 
 func (this Metadata) bytesSize() uint64 {
 	var n int = 0
